@@ -37,6 +37,24 @@ pub fn value_expr(p: &Val) -> Option<String> {
     }
 }
 
+/// the extreme values of an evaluator's type
+pub fn extreme_placeholders(ev: Ev) -> Vec<Val> {
+    use crate::val::DecV;
+    match ev {
+        Ev::F64 => vec![Val::F(f64::MAX), Val::F(f64::MIN), Val::F(f64::INFINITY), Val::F(f64::NEG_INFINITY), Val::F(f64::NAN), Val::F(-0.0), Val::F(5e-324), Val::F(9007199254740993.0)],
+        Ev::I64 => vec![Val::I(i64::MIN), Val::I(i64::MAX), Val::I(i64::MIN + 1), Val::I(-1), Val::I(i64::MAX - 1)],
+        Ev::Dec => vec![
+            Val::D(DecV { neg: false, mant: (1u128 << 96) - 1, scale: 0 }),
+            Val::D(DecV { neg: true, mant: (1u128 << 96) - 1, scale: 0 }),
+            Val::D(DecV { neg: false, mant: (1u128 << 96) - 1, scale: 28 }),
+            Val::D(DecV { neg: true, mant: 1, scale: 28 }),
+            Val::D(DecV { neg: true, mant: 0, scale: 0 }),
+        ],
+        Ev::Cpx => vec![Val::C(f64::MAX, f64::MAX), Val::C(f64::NAN, 0.0), Val::C(0.0, f64::INFINITY), Val::C(-0.0, -0.0), Val::C(5e-324, -5e-324)],
+        Ev::Num => vec![Val::NI(i64::MIN), Val::NI(i64::MAX), Val::NI(i64::MIN + 1), Val::NF(f64::MAX), Val::NF(f64::NAN), Val::NF(-0.0), Val::NF(f64::NEG_INFINITY), Val::NF(-9223372036854775808.0)],
+    }
+}
+
 impl Monitor for C14 {
     fn id(&self) -> &'static str {
         "C14"
@@ -122,6 +140,70 @@ impl Monitor for C14 {
                             }
                         }
                     }
+                }
+            }
+            // long flat chains (60..260 terms, several hundred characters) of `@`, small and boundary
+            // literals under signs and every chain operator of the evaluator, with extreme placeholders:
+            // a streamlined path for long simple inputs must read `@` exactly as the tree walk does
+            // (seeded change C14-r8: flat sums of 256 characters or more summed without the parser)
+            {
+                let n = ctx.tier.pick(6_000u64, 120_000);
+                for i in 0..n {
+                    if !ctx.mine() {
+                        continue;
+                    }
+                    let mut rng = ctx.rng(&format!("chain/{}", ev.name()), i);
+                    let joins: Vec<&str> = match rng.below(4) {
+                        0 => vec!["+", "-"],
+                        1 => vec!["+", "-", "+-", "--", "-+"],
+                        2 if ev != Ev::Cpx => vec!["*", "/"],
+                        2 => vec!["*"],
+                        _ => vec!["+", "-", "*"],
+                    };
+                    let lits: Vec<&str> = match ev {
+                        Ev::Cpx => vec!["0", "1", "1", "2", "0.5", "i", "2i", "3"],
+                        Ev::I64 => vec!["0", "1", "1", "2", "3", "7", "10"],
+                        _ => vec!["0", "1", "1", "2", "0.5", "3", "0.25"],
+                    };
+                    let big: Vec<&str> = match ev {
+                        Ev::I64 => vec!["9223372036854775807", "4294967296", "9223372036854775806"],
+                        Ev::Cpx => vec!["1000000"],
+                        _ => vec!["9007199254740993", "9223372036854775807", "100000000000000000000"],
+                    };
+                    let n_terms = if rng.chance(1, 3) { 3 + rng.below(30) } else { 60 + rng.below(200) };
+                    // one to three occurrences of `@`, at most one boundary literal: the chain's value should
+                    // be decided by the placeholder, not drown in overflow
+                    let at_pos: Vec<usize> = (0..1 + rng.below(3)).map(|_| rng.below(n_terms)).collect();
+                    let big_pos = if rng.chance(1, 4) { rng.below(n_terms) } else { usize::MAX };
+                    let mut t = String::new();
+                    for k in 0..n_terms {
+                        if k > 0 {
+                            t.push_str(*rng.pick(&joins));
+                        } else if rng.chance(1, 3) {
+                            t.push('-');
+                        }
+                        if at_pos.contains(&k) {
+                            t.push('@');
+                        } else if k == big_pos {
+                            t.push_str(*rng.pick(&big));
+                        } else {
+                            t.push_str(*rng.pick(&lits));
+                        }
+                    }
+                    // extreme placeholders half of the time
+                    let p = if rng.chance(1, 2) { *rng.pick(&phs) } else { extreme_placeholders(ev)[rng.below(extreme_placeholders(ev).len())] };
+                    let long = t.chars().count() >= 256;
+                    let case = match value_expr(&p) {
+                        Some(lit) => Case::pair(ev, "substitution", &t, p, &t.replace('@', &lit), Val::zero(ev)),
+                        None => Case::new(ev, "bound-reference", &t, p),
+                    };
+                    ctx.check(&case, &|c, st| {
+                        let v = self.judge(c, st);
+                        if let Verdict::Pass { .. } = v {
+                            st.inc(if long { "chains_confirmed.256+chars" } else { "chains_confirmed.short" });
+                        }
+                        v
+                    });
                 }
             }
             // expressions with 1..n occurrences of @ : literal substitution / reference with @ bound
